@@ -182,13 +182,13 @@ def confirm_replay(pid, path):
 
 # ------------------------------------------------------------------ worker pool
 
-def pool_map(fn, tasks, init=None, initargs=(), chunksize=1, procs=None):
+def pool_map(fn, tasks, init=None, initargs=(), chunksize=1, procs=None, force_fork=False):
     """Ordered map over tasks in forked workers (fork once per worker)."""
     procs = procs or NCPU
     tasks = list(tasks)
     if not tasks:
         return []
-    if procs <= 1 or len(tasks) == 1 or os.environ.get("VERIF_SERIAL"):
+    if not force_fork and (procs <= 1 or len(tasks) == 1 or os.environ.get("VERIF_SERIAL")):
         if init:
             init(*initargs)
         return [fn(t) for t in tasks]
